@@ -113,16 +113,31 @@ def gen_case(rng, hmax=12, metric=None, small=False):
     cellsidx = list(range(n))
     rng.shuffle(cellsidx)
     tcells = set(cellsidx[:ntg])
-    dtype = rng.choice(["float64", "float64", "float32", "int32", "int64", "uint8"])
+    dtype = rng.choice(["float64", "float64", "float32", "int32", "int64", "uint8", "uint32"])
+    # magnitude of the stored values: small labels (as before) / integer ids beyond float32 exactness (2^24 .. 2^53,
+    # consecutive ids one apart) / float64 cells below float32's smallest subnormal or above its largest finite value
+    mag = "small"
+    if not small and dtype in ("int32", "int64", "uint32", "float64") and rng.random() < 0.3:
+        mag = "bigint" if (dtype != "float64" or rng.random() < 0.6) else "extreme"
     scale = Fraction(1, 2) if (dtype.startswith("float") and rng.random() < 0.3) else Fraction(1)
     pool = list(range(1, n + 6))
     rng.shuffle(pool)
-    explicit = rng.random() < 0.4
-    dup = rng.random() < 0.12           # a few rasters with repeated target values (oracle handles them)
+    explicit = rng.random() < (0.7 if mag == "bigint" else 0.4)
+    dup = mag == "small" and rng.random() < 0.12           # a few rasters with repeated target values (oracle handles them)
+    base = 0
+    if mag == "bigint":
+        scale = Fraction(1)
+        top = {"int32": 2 ** 31 - 1, "uint32": 2 ** 32 - 1, "int64": 2 ** 53, "float64": 2 ** 53}[dtype]
+        bases = [2 ** 24 - 3, 2 ** 24, 2 ** 24 + 1, 2 ** 25 - 1, 20230700, 2 ** 27 + 1, 2 ** 30 + 1, 2 ** 31 - 1 - (n + 6)]
+        if top > 2 ** 31:
+            bases += [2 ** 31 - 2, 2 ** 32 - 1 - (n + 6)]
+        if top > 2 ** 32:
+            bases += [2 ** 32 - 3, 2 ** 40 + 1, 2 ** 53 - (n + 6)]
+        base = rng.choice([b for b in bases if b + n + 6 <= top])
     vals = []
     tv = []
     for i in range(n):
-        v = pool[i] * scale
+        v = pool[i] * scale + base
         if dup and i in tcells:
             v = (1 + (pool[i] % 2)) * scale
         if explicit:
@@ -136,13 +151,26 @@ def gen_case(rng, hmax=12, metric=None, small=False):
             # every cell carrying a duplicated target value is a target
             tcells = {i for i in range(n) if vals[i] in tv}
         if rng.random() < 0.5:
-            tv.append(Fraction(10 ** 6))        # a value that is not in the raster
+            tv.append(Fraction(10 ** 6) if mag != "bigint" else Fraction(base + n + 6))   # a value that is not in the raster
         if rng.random() < 0.3 and dtype.startswith("float"):
             tv.append("nan")
         if rng.random() < 0.15:
             tv.append(Fraction(0))              # no cell carries 0 in this mode
         rng.shuffle(tv)
     vt = [tok(v) for v in vals]
+    if mag == "extreme":
+        # non-zero finite float64 values that float32 turns into 0 or inf: still targets under the default rule,
+        # still equal only to themselves under an explicit list
+        ext = [5e-324, 1e-310, 3e-60, 1e-46, -2e-50, 3.5e38, 3e39, -1e300, 1.7e308]
+        rng.shuffle(ext)
+        k = 0
+        for i in sorted(tcells):
+            x = ext[k % len(ext)]
+            x = x * (1 + k // len(ext)) if abs(x) < 1 else x / (1 + k // len(ext))      # distinct, never 0, never inf
+            k += 1
+            vt[i] = tok(x)
+        if explicit:
+            tv = [vt[i] for i in sorted(tcells)] + [t for t in tv if isinstance(t, str)]
     if dtype.startswith("float"):
         for _ in range(rng.choice([0, 0, 1, 2])):     # NaN / inf cells: never targets
             i = rng.randrange(n)
@@ -169,7 +197,9 @@ def gen_case(rng, hmax=12, metric=None, small=False):
     return dict(H=H, W=W, vals=[vt[i * W:(i + 1) * W] for i in range(H)], dtype=dtype, tv=tvt,
                 xs=[tok(x) for x in xs], ys=[tok(y) for y in ys], sx=sx, sy=sy, u=u,
                 metric=mname, metric_model={"EUCLIDEAN": "e", "MANHATTAN": "m"}[metric],
-                max=dict(kind=kind, k=k))
+                max=dict(kind=kind, k=k), mag=mag,
+                tv_int=bool(explicit and mag != "extreme" and scale == 1 and dtype != "float32" and rng.random() < 0.5
+                            and all(t not in ("nan", "inf", "-inf") for t in tvt)))
 
 
 def gen_gc_case(rng):
@@ -234,6 +264,8 @@ def worker_main(path_in, path_out):
             kw = dict(distance_metric=c["metric"])
             if c["tv"]:
                 kw["target_values"] = [untok(t) for t in c["tv"]]
+                if c.get("tv_int"):      # the caller passes python ints (np.asarray -> int64), not floats
+                    kw["target_values"] = [int(v) for v in kw["target_values"]]
             if c["max"]["kind"] != "inf" or c.get("pass_inf"):
                 kw["max_distance"] = max_value(c["max"], c["u"])
             res = {}
@@ -301,7 +333,8 @@ def parse_reply(line):
 
 def f32(x):
     import numpy as np
-    return float(np.float32(x))
+    with np.errstate(over="ignore", under="ignore"):
+        return float(np.float32(x))
 
 
 def cast_vals(c):
@@ -471,7 +504,7 @@ def tags_of(c, stream):
     nt = sum(1 for row in c["vals"] for t in row if t not in ("0", "nan", "inf", "-inf")) if not c["tv"] else len(c["tv"])
     return [f"stream:{stream}", f"metric:{c['metric']}", f"max:{c['max']['kind']}", f"dtype:{c['dtype']}",
             f"size:{'1-3' if max(c['H'], c['W']) <= 3 else '4-6' if max(c['H'], c['W']) <= 6 else '7-12'}",
-            f"cells:{c['sx']}x{c['sy']}", f"targets:{'explicit' if c['tv'] else 'default'}",
+            f"cells:{c['sx']}x{c['sy']}", f"targets:{'explicit' if c['tv'] else 'default'}", f"magnitude:{c.get('mag', 'small')}",
             f"density:{'0' if nt == 0 else '1' if nt == 1 else '<=10%' if nt <= 0.1 * n else '<=30%' if nt <= 0.3 * n else '>30%'}"]
 
 
@@ -583,8 +616,8 @@ def run(r, scale=1):
     timing = r.extra.setdefault("timing_s", {})
     timing["proofs_done_at"] = round(time.time() - r.t0, 1)
     t_phase = time.time()
-    r.rule = ("rasters 1x1..12x12 with unique target values (12% repeated), densities 0..60%, default and explicit "
-              "target_values (incl. absent values / NaN), NaN/inf cells, 6 dtypes, coordinate unit in {1,1/2,2,1/4}, steps "
+    r.rule = ("rasters 1x1..12x12 with unique target values (12% repeated; 23% with ids 2^24..2^53 one apart or subnormal/huge float64 cells), densities 0..60%, default and explicit "
+              "target_values (incl. absent values / NaN, int or float lists), NaN/inf cells, 7 dtypes, coordinate unit in {1,1/2,2,1/4}, steps "
               "{1,2,3} per axis, ascending/descending, EUCLIDEAN/MANHATTAN/unknown metric strings, max_distance in "
               "{inf, None, k, k+1/2, sqrt(k+1/2), sqrt(k+1/4)}; all three public functions per case; stream jit = "
               "numba-compiled code, stream interp = same source under NUMBA_DISABLE_JIT; small = every layout on "
